@@ -244,7 +244,8 @@ fn one_run(dir: &str, files: &[PathBuf], inputs: &[Input], base: &[&str], sched:
         queue_capacity: qcap,
         fallback_frac: base.get(4).map(|x| x.parse().unwrap()).unwrap_or(0.0),
     };
-    let out = format!("{}/c04_{}_{}.agc", dir, std::process::id(), sched.replace(':', "_"));
+    let _ = dir;
+    let out = format!("{}/c04_{}_{}.agc", std::env::temp_dir().display(), std::process::id(), sched.replace(':', "_"));
     let _ = std::fs::remove_file(&out);
     let _ = vh::take_log();
     vh::set_scheduler(seed);
